@@ -51,6 +51,11 @@ func DrawRelValue(t *core.Tape, toOne bool) interface{} {
 		ids[i] = PlainIDs[perm[i]]
 	}
 
+	// a repeated ID is a legal []string too
+	if n >= 2 && t.Bool(1, 6) {
+		ids[n-1] = ids[0]
+	}
+
 	return ids
 }
 
